@@ -345,6 +345,9 @@ func unmarshalDynamic(dec *msgpack.Decoder, path cty.Path) (cty.Value, error) {
 	if err != nil {
 		return cty.DynamicVal, path.NewError(err)
 	}
+	// Optional attributes are meaningful only in type constraints used for
+	// conversion; the type of a value never carries them.
+	ty = ty.WithoutOptionalAttributesDeep()
 
 	return unmarshal(dec, ty, path)
 }
